@@ -446,6 +446,7 @@ class Gen(object):
 
 # ---- really failing elements (C07) ------------------------------------------------------------
 BAD_EXPR = {"lua": ["1 +", "nosuchfn()", "(1)(2)"], "promela": ["1 +", "nosuchvar + 1", "7 / 0", "7 % 0"], "null": []}
+BAD_GUARD = {"lua": ["1 +", "nosuchfn()", "(1)(2)"], "promela": ["1 +", "nosuchvar + 1"], "null": []}
 BAD_SEND = [({"type": "nosuch-ioproc"}, "error.execution"), ({"target": "bogus-target"}, "error.execution"),
             ({"target": "#_nosuchinvoke"}, "error.communication")]
 # sends whose namelist / <param> cannot be evaluated (datamodels with expressions only)
@@ -460,6 +461,8 @@ def failure_of(e, dm):
     if e.tag == "data" and e.attrs.get("src") == BAD_SRC:
         return "error.communication"
     if e.tag in ("if", "elseif") and e.attrs.get("cond") in BAD_EXPR.get(dm, []):
+        return "error.execution"
+    if e.tag == "transition" and e.attrs.get("cond") in BAD_GUARD.get(dm, []):
         return "error.execution"
     if e.tag == "send":
         for (at, evn) in BAD_SEND:
@@ -481,7 +484,25 @@ def plant_failure(root, r, dm, allow_src=False):
     kinds = ["send"]
     if BAD_EXPR.get(dm):
         kinds += ["log", "assign", "if", "data"]
+        kinds += ["guard"]
     kind = r.choice(kinds)
+    if kind == "guard":
+        # the guard of a transition cannot be evaluated: error.execution, and the transition counts as not enabled.
+        # Only transitions with an event that error events do not match (the error would re-trigger the evaluation for
+        # ever), and only sources without a parallel below (Appendix D evaluates the guard once per active atomic
+        # descendant, the engines once per transition: with at most one such descendant both agree)
+        def unmatched(t):
+            return all(not name_match_desc(d, "error.execution") for d in t.attrs.get("event", "").split())
+        cands = [t for t in root.walk() if t.tag == "transition" and t.attrs.get("event") and unmatched(t)
+                 and t.parent.tag in ("state", "parallel") and not any(x.tag == "parallel" for x in t.parent.walk())
+                 and not any(a.tag == "content" for a in _ancestors(t))]
+        if not cands:
+            kind = r.choice(kinds[:-1])
+        else:
+            t = r.choice(cands)
+            t.attrs["cond"] = r.choice(BAD_GUARD[dm])
+            t.meta["cond_ast"] = ("num", 0)
+            return "guard"
     if kind == "data":
         dmel = [c for c in root.children if c.tag == "datamodel"]
         if not dmel:
@@ -543,6 +564,15 @@ def plant_failure(root, r, dm, allow_src=False):
     return kind
 
 
+def name_match_desc(desc, name):
+    if desc == "*":
+        return True
+    if desc.endswith(".*"):
+        desc = desc[:-2]
+    desc = desc.rstrip(".")
+    return name == desc or name.startswith(desc + ".")
+
+
 def _ancestors(e):
     p = e.parent
     while p is not None:
@@ -581,6 +611,8 @@ def from_xml(xml):
                 e.meta["var"] = e.attrs["location"]
             if e.tag == "send":
                 e.meta["delay"] = 0
+            if e.tag == "transition":
+                e.meta["cond_ast"] = ("num", 0)
             continue
         if e.tag in ("transition", "if", "elseif") and "cond" in e.attrs:
             e.meta["cond_ast"] = parse_expr(e.attrs["cond"], dm)
